@@ -13,7 +13,8 @@ def err_exits(prog, fn):
     """[(block, descriptor)] : own `Err(..)` results and `?` propagations."""
     out = []
     for bb, si, s in fn.stmts():
-        if s['k'] == 'assign' and s['pl']['l'] == 0 and 'p' not in s['pl'] and s['rv']['k'] == 'agg' \
+        if s['k'] == 'assign' and (s['pl']['l'] == 0 or s['pl']['l'] in fn.ret_locals) and 'p' not in s['pl'] \
+                and s['rv']['k'] == 'agg' \
                 and s['rv'].get('var') == 'Err' and 'Result' in s['rv'].get('adt', ''):
             # which error variant?
             desc = 'Err'
@@ -28,6 +29,8 @@ def err_exits(prog, fn):
         if callee_short(t).endswith('::from_residual') and t['dest'].get('l') == 0 and 'p' not in t['dest']:
             # find the call whose result is being propagated: walk back through branch() to the producing call
             src = producing_call(fn, t)
+            if src is not None and src[1] is INLINED_RESULT:
+                continue
             out.append((bb, '?' + (callee_short(src[1]) if src else 'unknown'), src))
     return out
 
@@ -56,13 +59,21 @@ def producing_call(fn, resid_term):
             elif df['kind'] in ('call', 'partial_call'):
                 t = df['term']
                 cs = callee_short(t)
-                if cs.endswith('::branch') or cs.endswith('map_err') or cs.endswith('ok_or') or cs.endswith('ok_or_else'):
+                if cs.endswith('::branch') or cs.endswith('map_err') or cs.endswith('ok_or') or cs.endswith('ok_or_else') \
+                        or cs.endswith('::from_residual'):
                     for a in t['args']:
                         if a['k'] in ('copy', 'move'):
                             work.append(a['pl']['l'])
                 else:
                     return (df['bb'], t)
+    if seen & set(fn.ret_locals):
+        # the result of a helper that has been spliced in: its own Err(..) exits are listed where they are generated
+        return (-1, INLINED_RESULT)
     return None
+
+
+INLINED_RESULT = {'k': 'call', 'f': {'res': 'inlined::helper_result', 'def': 'inlined::helper_result'}, 'args': [],
+                  'dest': {'l': -1}, 'sp': {'f': '', 'l': 0}}
 
 
 class WriteBeforeFail:
